@@ -22,7 +22,7 @@ class SimDeadlock(RuntimeError):
 
 
 class Actor:
-    __slots__ = ("aid", "name", "sem", "state", "prio", "frozen", "thread", "lines", "in_task")
+    __slots__ = ("aid", "name", "sem", "state", "prio", "frozen", "thread", "lines", "in_task", "task_lines")
 
     def __init__(self, aid, name):
         self.aid = aid
@@ -34,6 +34,7 @@ class Actor:
         self.thread = None
         self.lines = 0
         self.in_task = None
+        self.task_lines = 0
 
 
 # ---------------------------------------------------------------------------------------
@@ -126,6 +127,8 @@ class Sched:
     def _draw_gap(self):
         if self.strategy == "solo" or self.gap_mean <= 0:
             return 1 << 60
+        if self.strategy == "lockstep":
+            return 1
         return 1 + self.sim.choose(2 * self.gap_mean, "gap")
 
     def _draw_bgap(self):
@@ -166,6 +169,12 @@ class Sched:
             return best
         if self.strategy == "solo":
             return order[0]
+        if self.strategy == "lockstep" and why.startswith("line:"):
+            # workers that are inside a task body advance one line each in turn, so that two tasks
+            # running the same kernel pass through the same statements side by side
+            inside = sorted((a for a in order if a.in_task is not None and a is not self.main), key=lambda a: a.aid)
+            if len(inside) >= 2 and current in inside:
+                return inside[(inside.index(current) + 1) % len(inside)]
         k = self.sim.choose(len(order), why)
         return order[k]
 
@@ -280,6 +289,7 @@ class Sched:
         for a in args[0]:
             key = a[0]
             actor.in_task = str(key)
+            actor.task_lines = 0
             self.sim.event("task", actor.name, str(key))
             self.sim.count("tasks")
             self.point(actor, "task-start")
@@ -321,7 +331,25 @@ class Sched:
         if actor is None or actor is self.main or actor is not self.current:
             return
         actor.lines += 1
-        self.point(actor, "line:%s:%d" % (code.co_filename.rsplit("/", 1)[-1], line))
+        actor.task_lines += 1
+        why = "line:%s:%d" % (code.co_filename.rsplit("/", 1)[-1], line)
+        if self.strategy == "lockstep" and actor.task_lines == 1 and not self.capped:
+            # rendezvous: a task entering its kernel waits for another task to get there too, so that
+            # both then walk through the same statements side by side (aligned start)
+            waiting = [a for a in self._runnable() if a is not actor and a.frozen > 0 and a.in_task is not None and a.task_lines == 1]
+            if waiting:
+                for a in waiting:
+                    a.frozen = 0
+                self.sim.count("rendezvous_met")
+            else:
+                others = [a for a in self._runnable() if a is not actor]
+                if others:
+                    actor.frozen = 60
+                    self.sim.count("rendezvous")
+                    nxt = self._pick(actor, why + ":rv", forced=True)
+                    self._switch(actor, nxt, why + ":rv")
+                    return
+        self.point(actor, why)
 
     def _c_cb(self, site):
         actor = self.idents.get(threading.get_ident())
